@@ -206,6 +206,41 @@ SIGNATURES: Dict[str, Callable[[dict], bool]] = {
 }
 
 
+def _std_snake(name: str) -> str:
+    import re
+    s1 = re.sub(r"(.)([A-Z][a-z]+)", r"\1_\2", name)
+    return re.sub(r"([a-z0-9])([A-Z])", r"\1_\2", s1).lower()
+
+
+def _camel(name: str) -> str:
+    parts = name.split("_")
+    return parts[0] + "".join(p[:1].upper() + p[1:] for p in parts[1:])
+
+
+def sig_codegen_stub_name_not_discoverable(v: dict) -> bool:
+    """C17: a JSON-loading template was written, and the name the generated logic fails to bind is one that
+    cannot survive the trip config name -> python function name -> (loader) camelCase name: not an identifier,
+    a keyword, or not equal to camel(snake(name)) (consecutive capitals, capital next to a digit)."""
+    import keyword
+    import re
+    if v.get("clauses") != ["generated_logic_does_not_bind_every_name"]:
+        return False
+    errs = (((v.get("observed_post") or {}).get("info") or {}).get("worker") or {}).get("errors") or []
+    names = []
+    for e in errs:
+        m = re.search(r"(?:Action|Guard|Service) '(.*)' is defined in the machine", e, re.S)
+        if m:
+            names.append(m.group(1))
+    if not names:
+        return False
+    n = names[0]
+    roundtrips = n.isidentifier() and not keyword.iskeyword(n) and _camel(_std_snake(n)) == n
+    return not roundtrips
+
+
+SIGNATURES["codegen_stub_name_not_discoverable"] = sig_codegen_stub_name_not_discoverable
+
+
 def classify(prop: str, v: dict, findings: Optional[List[dict]] = None) -> Optional[dict]:
     for f in findings if findings is not None else load():
         if f.get("status") != "known":
